@@ -282,6 +282,14 @@ def _mirsym():
         ["engine::operators::binary_operator::<impl VecOperator for NullableCheckedBinary*Operator>::execute", "numeric_operators::*::perform_checked"],
         bounds="1-2 rows (quick) / 0-3, 9 rows (thorough); operands and null-map bytes symbolic", spec=so.NullableCheckedSpec(), stubs=stubs)
 
+    from .specs import xorfloat as sx
+    add("C16.b/xor_float", "C16", "mirsym", Q,
+        "xor_float::double::encode then decode: every f64 comes back bit-exact (mantissa None) or with sign, exponent and the requested leading mantissa bits (mantissa Some(m)); covers the first-window and the window-reuse branch",
+        ["locustdb_compression_utils::xor_float::double::encode", "locustdb_compression_utils::xor_float::double::decode"],
+        bounds="quick: 0-2 symbolic floats, and 3 floats with the first two fixed (reuse branch), mantissa in {None,0,23,52}, max_regret in {0,100}; thorough: 3 fully symbolic floats, more mantissa settings, 4 floats with 3 fixed; bitbuffer streams modelled as one LSB-first bit FIFO",
+        spec=sx.XorFloatSpec(), stubs=["bitbuffer::{BitWriteStream::write_int, BitReadStream::read_int} -> bit FIFO (LSB first)"],
+        assumptions=["bitbuffer write_int/read_int are bit-FIFO consistent"])
+
 
 _mirsym()
 
